@@ -22,6 +22,9 @@ func runC04(r *Run) {
 	r.rule("C04.R5", "the recorded execution amounts are the same values that are subtracted", 2)
 	r.rule("C04.R6", "Slash: cache-context discipline (the duplicate-ID / record check happens before the commit; nothing fails after it)", 4)
 	r.rule("C04.R7", "CheckSlashParameter (non-negative proportion, event height <= current height) dominates SlashAssets", 3)
+	r.rule("C04.R8", "frame condition in the callees: slashed records/pools are written back through the iterator helpers; the share-zeroing after a pool-emptying slash changes only UndelegatableShare", 3)
+	iteratorWriteBackRule(r, "C04.R8", map[string]bool{"IterateUndelegationsByOperator": true, "IterateAssetsForOperator": true})
+	shareZeroingRule(r, "C04.R8")
 
 	sa := w.View("x/operator/keeper", "Keeper.SlashAssets")
 	su := w.View("x/operator/keeper", "SlashFromUndelegation")
